@@ -113,3 +113,19 @@ fn h_is_seq_ok() {
     };
     assert_eq!(tcb.is_seq_ok(data_len, seq, syn, fin), want);
 }
+
+//# id=witness.close_with_unsegmentized_data props=C03 kind=witness pair=tcb.Tcb.close.fin_after_unsegmentized_data
+// KNOWN FINDING K-C03-close: data submitted before close() but not yet segmentized.
+// Expected on a correct stack: the byte is transmitted and the FIN is numbered after it.
+#[cfg(vx_replay)]
+#[test]
+fn h_w_close_with_unsegmentized_data() {
+    let mut tcb = established(4096);
+    tcb.send(Message::new(vec![42u8]));
+    assert_eq!(tcb.close(), CloseResult::Ok);
+    let out = tcb.segments();
+    let data: usize = out.iter().map(|s| s.text.len()).sum();
+    let fin = out.iter().find(|s| s.header.ctl.fin()).expect("FIN queued");
+    assert_eq!(data, 1, "the byte submitted before close() was never transmitted");
+    assert_eq!(fin.header.seq, 102, "FIN must be numbered after the submitted byte (SND.NXT was 101)");
+}
